@@ -18,6 +18,7 @@ CONSTS = [
     ("errno_ECANCELED", U + "sim.rs", r"const ECANCELED: i32 = (\d+);", "N"),
     ("errno_ENOENT", U + "sim.rs", r"const ENOENT: i32 = (\d+);", "N"),
     ("errno_EINVAL", U + "submit.rs", r"fn libc_einval\(\) -> i32 \{\s*-(\d+)", "N"),
+    ("errno_ENOSPC", U + "sim.rs", r"const ENOSPC: i32 = (\d+);", "N"),
     ("flag_FIXED_FILE_shift", U + "squeue.rs", r"pub const FIXED_FILE: Self = Self\(1 << (\d+)\)", "N"),
     ("flag_IO_DRAIN_shift", U + "squeue.rs", r"pub const IO_DRAIN: Self = Self\(1 << (\d+)\)", "N"),
     ("flag_IO_LINK_shift", U + "squeue.rs", r"pub const IO_LINK: Self = Self\(1 << (\d+)\)", "N"),
@@ -48,7 +49,7 @@ class Spec(PropSpec):
     assumptions = [
         "the sampled latency of each op and the shuffle of each matured batch are inputs of the model (forced by min=max latency / read back from the observed completion order); the theorems quantify over all their values",
         "the file system is a parameter of the ring model (Section variables): c18_same_as_sync is proved for every file-system implementation; the correspondence instantiates it with a byte-array model and the real crate is compared with a twin Fs driven through the synchronous std shim",
-        "fault-injection probabilities, O_DIRECT alignment and capacity checks inside exec_read/exec_write are outside the model (all off in the generated cases)",
+        "fault-injection probabilities and O_DIRECT alignment inside exec_read/exec_write are outside the model (off in the generated cases); the capacity check is part of the concrete file-system instance used for the correspondence (in the parametric theorems it belongs to fs_write)",
         "one CompletionQueue handle per ring at a time; AsyncFd wake-ups (tokio Notify) are not modelled, only the readiness snapshot",
     ]
 
@@ -60,6 +61,7 @@ class Spec(PropSpec):
         cases += [F.gen_sim(ctx.rng) for _ in range(n // 4)]
         cases += [F.gen_dup(ctx.rng) for _ in range(n // 8)]
         cases += [F.gen_cache(ctx.rng) for _ in range(n // 5)]
+        cases += [F.gen_capacity(ctx.rng) for _ in range(n // 6)]
         ex = F.exhaustive_small()
         if ctx.tier == "quick":
             ex = ctx.rng.sample(ex, min(len(ex), 120))
